@@ -17,4 +17,5 @@ int  rt_len_alphabet (long *lens, int B, int staging_items, int ch, int thorough
 int  rt_write_file (MemDev *md, const Fmt *f, int ch, int rate, int type, long N, int g) ;	/* 0 ok */
 const char *rt_chclass (int ch) ;
 const char *rt_fam (const Fmt *f) ;	/* "major/sub" without the endian option */
+void rt_dump_log (SNDFILE *sf) ;
 #endif
